@@ -62,6 +62,38 @@ K2: no loop counter read after its loop (a loop with `break`: UNDECIDED).
 K3: no array argument of a pyccel kernel is re-bound as a whole (`X = E`): Python binds a new local array, compiled code assigns in
 place into the caller's array.
 Numerical equality of compiled and interpreted results is inherently dynamic: not decided.
+Pass 4 (soundness audit; every VIOLATED site carries an `AUDIT` comment with the assumptions of its diagnosis, and checks them):
+ - "different as formulas" is a statement about polynomials over INDEPENDENT atoms: symbols and array elements are; applications of
+   uninterpreted functions (int, abs, %, //, attributes such as X.size, kernel calls) support a difference only when both sides
+   contain the SAME applications (abs(a - b) / abs(b - a), (i + n) % n / i % n, X.size / X.shape[0] are undecided or proved by a law:
+   whole multiples of the modulus are taken out of `%`, min / max are symmetric), except one application recognisably shifted
+   ((E + c) % n against E % n) or one unchanged kernel with a recognisably different argument; numeric agreement at positive values
+   only is undecided; two call names are two functions only when both are kernels of both modules; `p and q` against `p or q` only
+   with equal operands; opposite loop directions are undecided; `if a != b: A else: B` is paired with `if a == b: B else: A`;
+ - differences that feed one another (a definition and its uses, target and value of one store, a loop range together with another
+   statement - peeled iterations) are one possible change of convention: undecided unless the constant-shift / axis-permutation
+   forms decide them; an axis permutation must turn every recognised difference into an equality;
+ - caller + callee are one unit: a call of a helper that is itself written differently in the copy decides nothing; a differing
+   helper that only kernels of its own module call, all of them differing too, is undecided (its callers' verdicts stand);
+ - a VIOLATED verdict of the specification engines (C07 / C12) is used only when the flagged body has no library call / unusual
+   construct that its passing counterpart lacks (found by probe: `norm = max(diff, norm)`);
+ - engine G needs a readable declared type for every parameter (regions are decided over the reals except for known integers);
+ - V1: a name bound at module level by assignment / import is defined; calls inside the reference module itself are no evidence that
+   a call "does not bind in the copy"; `obj.name(...)` is a kernel call only on a kernel-module alias; a plain name is the kernel only
+   when imported from a kernel module (a library function of the same name is another function);
+ - V3: a private helper in one duplicate only is undecided; f_eq: a difference `simplify` leaves is checked numerically;
+ - K1: every violation goes through `claim`: the index expression must consist of modelled arithmetic (no call / conditional
+   expression) and some use must be reached unconditionally as far as the index is concerned (no enclosing test, no earlier
+   `if ...: continue / return`); an unreduced difference computed by the CALLERS is undecided (its sign is a property of the data);
+ - B1-makefile-targets reads the rules that are active for ACC=pycc (ifeq / ifneq on $(ACC) evaluated) and calls a rule wrong only
+   when its recipe compiles `$<`;
+ - `*self.attr` is followed into a property (plain / cached, also of a base class or mixin of the same module) returning a display;
+ - "both bodies satisfy the specification formula" proves them equal only for what the formula speaks about: when the two bodies
+   compare the same input data with different operators (`r > rMax` / `r >= rMax`: a point exactly on the boundary) or test a mode
+   parameter against different literals (a mode only one of them has), they are compared directly as well;
+ - V2-export-types: only another rank or a NARROWER exported kind (bool for int, int for float) is a violation, a wider one undecided;
+ - negations are pushed down to the comparisons, chained comparisons split, `x in (a, b)` written as equalities, X.size of a vector
+   as X.shape[0] (both sides, before anything is compared).
 """
 from __future__ import annotations
 
@@ -186,8 +218,34 @@ def _strip(fn: ast.FunctionDef) -> ast.FunctionDef:
                     n.slice = new[0]
             return n
 
+        def visit_UnaryOp(self, n):
+            self.generic_visit(n)
+            # not (p and q) is (not p) or (not q); not (a < b) is b <= a (numbers that are not NaN): negations are pushed down to the
+            # comparisons, so that one condition has one spelling
+            if isinstance(n.op, ast.Not):
+                neg = _negated(n.operand)
+                if neg is not None:
+                    return neg
+            return n
+
         def visit_Compare(self, n):
             self.generic_visit(n)
+            # a <= x < b is a <= x and x < b (the middle operand is a name / element / arithmetic: evaluating it twice changes nothing)
+            if len(n.ops) > 1 and not any(isinstance(x, (ast.Call, ast.NamedExpr, ast.Await)) for c in n.comparators[:-1] for x in ast.walk(c)):
+                parts, left = [], n.left
+                for op, right in zip(n.ops, n.comparators):
+                    parts.append(self.visit_Compare(ast.Compare(left=ast.parse(ast.unparse(left), mode="eval").body, ops=[op],
+                                                                comparators=[ast.parse(ast.unparse(right), mode="eval").body])))
+                    left = right
+                return ast.BoolOp(op=ast.And(), values=parts)
+            # x in (a,) is x == a;  x in (a, b) is x == a or x == b;  x not in (a, b) is x != a and x != b   (x a name, a, b numbers)
+            if len(n.ops) == 1 and isinstance(n.ops[0], (ast.In, ast.NotIn)) and isinstance(n.left, ast.Name) \
+                    and isinstance(n.comparators[0], (ast.Tuple, ast.List, ast.Set)) and 1 <= len(n.comparators[0].elts) <= 4 \
+                    and all(_int_literal(x) is not None for x in n.comparators[0].elts):
+                pos_ = isinstance(n.ops[0], ast.In)
+                tests = [ast.Compare(left=ast.Name(id=n.left.id, ctx=ast.Load()), ops=[ast.Eq() if pos_ else ast.NotEq()], comparators=[x])
+                         for x in n.comparators[0].elts]
+                return tests[0] if len(tests) == 1 else ast.BoolOp(op=ast.Or() if pos_ else ast.And(), values=tests)
             if len(n.ops) == 1 and isinstance(n.ops[0], (ast.Gt, ast.GtE)):
                 return ast.Compare(left=n.comparators[0], ops=[ast.Lt() if isinstance(n.ops[0], ast.Gt) else ast.LtE()], comparators=[n.left])
             return n
@@ -234,6 +292,35 @@ def _strip(fn: ast.FunctionDef) -> ast.FunctionDef:
         return out
     f.body = clean(f.body) or [ast.Pass()]
     return ast.fix_missing_locations(f)
+
+
+def _negated(e):
+    """the negation of a condition with the `not` pushed down to its comparisons (None when e is not made of and / or / not /
+    single comparisons with <, <=, >, >=, ==, !=)"""
+    if isinstance(e, ast.UnaryOp) and isinstance(e.op, ast.Not):
+        return e.operand
+    if isinstance(e, ast.BoolOp):
+        parts = [_negated(v_) for v_ in e.values]
+        if any(p_ is None for p_ in parts):
+            return None
+        return ast.BoolOp(op=ast.Or() if isinstance(e.op, ast.And) else ast.And(), values=parts)
+    if isinstance(e, ast.Compare) and len(e.ops) == 1:
+        op = e.ops[0]
+        l, r = e.left, e.comparators[0]
+        # (`>` / `>=` were already turned round: the result stays in the `<` / `<=` form)
+        if isinstance(op, ast.Lt):
+            return ast.Compare(left=r, ops=[ast.LtE()], comparators=[l])
+        if isinstance(op, ast.LtE):
+            return ast.Compare(left=r, ops=[ast.Lt()], comparators=[l])
+        if isinstance(op, ast.Gt):
+            return ast.Compare(left=l, ops=[ast.LtE()], comparators=[r])
+        if isinstance(op, ast.GtE):
+            return ast.Compare(left=l, ops=[ast.Lt()], comparators=[r])
+        if isinstance(op, ast.Eq):
+            return ast.Compare(left=l, ops=[ast.NotEq()], comparators=[r])
+        if isinstance(op, ast.NotEq):
+            return ast.Compare(left=l, ops=[ast.Eq()], comparators=[r])
+    return None
 
 
 def _enumerate_header(st):
@@ -1608,6 +1695,15 @@ def canon_fn(fn: ast.FunctionDef, pure: set, tree: ast.Module = None) -> ast.Fun
         f = _view_aliases(f, kinds)
     except Exception:
         f = _strip(fn)
+    if any(r_ == 1 for r_ in ranks.values()):
+        class Sz(ast.NodeTransformer):
+            def visit_Attribute(self, n):
+                self.generic_visit(n)
+                # the number of elements of a vector is its first extent
+                if n.attr == "size" and isinstance(n.value, ast.Name) and ranks.get(n.value.id) == 1 and isinstance(n.ctx, ast.Load):
+                    return ast.parse(f"{n.value.id}.shape[0]", mode="eval").body
+                return n
+        f = ast.fix_missing_locations(Sz().visit(f))
     base = ast.parse(ast.unparse(f)).body[0]
     try:
         f = _scalarise_temps(f, ranks)
@@ -1690,6 +1786,12 @@ def _pair_bodies(a, b, out, guards=()):
                 raise _Skeleton("return value")
             if x.value is not None:
                 out.append((x.value, y.value, x, y, "value"))
+        elif isinstance(x, ast.If) and x.orelse and y.orelse and _complementary(x.test, y.test):
+            # if a != b: A else: B  against  if a == b: B' else: A'  (also a <= b against b < a): the same two-way branch with its arms
+            # written in the other order (numbers that are not NaN)
+            inner = guards + (x.test, y.test)
+            _pair_bodies(x.body, y.orelse, out, inner)
+            _pair_bodies(x.orelse, y.body, out, inner)
         elif isinstance(x, (ast.If, ast.While)):
             out.append((x.test, y.test, x, y, "condition"))
             inner = guards + (x.test, y.test)
@@ -1708,6 +1810,20 @@ def _pair_bodies(a, b, out, guards=()):
         else:
             if ast.dump(x) != ast.dump(y):
                 raise _Skeleton(f"statement `{src(x)[:50]}`")
+
+
+def _complementary(t1, t2):
+    """two comparisons of which exactly one holds (for numbers that are not NaN): a == b / a != b, a <= b / b < a, a < b / b <= a
+    with identical operands (`>` and `>=` were turned round by the canonical form)"""
+    if not (isinstance(t1, ast.Compare) and isinstance(t2, ast.Compare) and len(t1.ops) == 1 and len(t2.ops) == 1):
+        return False
+    o1, o2 = type(t1.ops[0]), type(t2.ops[0])
+    l1, r1, l2, r2 = ast.dump(t1.left), ast.dump(t1.comparators[0]), ast.dump(t2.left), ast.dump(t2.comparators[0])
+    if {o1, o2} == {ast.Eq, ast.NotEq}:
+        return (l1, r1) == (l2, r2) or (l1, r1) == (r2, l2)
+    if {o1, o2} == {ast.Lt, ast.LtE}:
+        return (l1, r1) == (r2, l2)
+    return False
 
 
 def _equality_knowledge(stmt, a, b):
@@ -1761,7 +1877,7 @@ def _to_sym(e, atoms):
         if isinstance(e.op, ast.FloorDiv):
             return sp.Function("floordiv")(a, b)
         if isinstance(e.op, ast.Mod):
-            return sp.Function("pymod")(a, b)
+            return _pymod(a, b)
         raise Undecided("operator")
     if isinstance(e, ast.Subscript):
         items = e.slice.elts if isinstance(e.slice, ast.Tuple) else [e.slice]
@@ -1773,12 +1889,44 @@ def _to_sym(e, atoms):
                 args.append(_to_sym(it, atoms))
         return sp.Function("at_" + src(e.value).replace(".", "_"))(*args)
     if isinstance(e, ast.Call) and not e.keywords and len(e.args) == 2 and src(e.func).split(".")[-1] == "mod":
-        return sp.Function("pymod")(_to_sym(e.args[0], atoms), _to_sym(e.args[1], atoms))
+        return _pymod(_to_sym(e.args[0], atoms), _to_sym(e.args[1], atoms))
     if isinstance(e, ast.Call) and not e.keywords and not any(isinstance(a, ast.Starred) for a in e.args):
-        return sp.Function("call_" + src(e.func).replace(".", "_"))(*[_to_sym(a, atoms) for a in e.args])
+        zs = [_to_sym(a, atoms) for a in e.args]
+        if src(e.func).split(".")[-1] in ("min", "max", "minimum", "maximum", "fmin", "fmax") and len(zs) >= 2:
+            zs = sorted(zs, key=sp.sstr)          # symmetric in their arguments
+        return sp.Function("call_" + src(e.func).replace(".", "_"))(*zs)
     if isinstance(e, ast.Attribute):
-        return sp.Symbol(src(e).replace(".", "_"))
+        # X.size, X.ndim, X.real, obj.field: a value related to the object in ways the comparison does not know (X.size is
+        # X.shape[0] for a vector) - an opaque application, not an independent unknown
+        return sp.Function("call_attr_" + e.attr)(sp.Symbol(src(e.value).replace(".", "_").replace("[", "_").replace("]", "_").replace(" ", "")[:60]))
     raise Undecided("expression")
+
+
+def _reversed_ranges(pa, pb):
+    """range(a, b) against range(b - 1, a - 1, -1) (either way round): the same set of values run through in opposite directions"""
+    import sympy as sp
+    try:
+        (s1, e1, t1), (s2, e2, t2) = [[_to_sym(x, None) for x in p_] for p_ in (pa, pb)]
+        if not (t1.is_Integer and t2.is_Integer and abs(t1) == 1 and t1 == -t2):
+            return False
+        return sp.expand(s2 - (e1 - t1)) == 0 and sp.expand(e2 - (s1 - t1)) == 0
+    except Exception:
+        return False
+
+
+def _pymod(a, n):
+    """a % n with whole multiples of the modulus taken out of a: (a + k*n) % n is a % n for every integer k (exactly for integers,
+    up to rounding for reals)"""
+    import sympy as sp
+    try:
+        if not n.is_number:
+            a = sp.expand(a)
+            c = a.coeff(n, 1) if n.is_Symbol or n.is_Function else sp.Integer(0)
+            if c.is_Integer and c != 0:
+                a = sp.expand(a - c * n)
+    except Exception:
+        pass
+    return sp.Function("pymod")(a, n)
 
 
 def expr_same(a, b):
@@ -1798,9 +1946,11 @@ def expr_same(a, b):
     if isinstance(a, ast.BoolOp) or isinstance(b, ast.BoolOp):
         if not (isinstance(a, ast.BoolOp) and isinstance(b, ast.BoolOp)) or len(a.values) != len(b.values):
             return None
-        if type(a.op) is not type(b.op):
-            return False
         rs = [expr_same(x, y) for x, y in zip(a.values, b.values)]
+        if type(a.op) is not type(b.op):
+            # AUDIT: `p and q` against `p or q` is a different condition only when the operands are the SAME conditions (then the two
+            # differ wherever exactly one of p, q holds); with other operands it may be De Morgan's form of the same test
+            return False if all(r is True for r in rs) else None
         return False if False in rs else (None if None in rs else True)
     if isinstance(a, ast.UnaryOp) and isinstance(a.op, ast.Not) and isinstance(b, ast.UnaryOp) and isinstance(b.op, ast.Not):
         return expr_same(a.operand, b.operand)
@@ -1837,13 +1987,44 @@ def expr_same(a, b):
                 z = list(r.args)
                 return [ast.Constant(0), z[0], ast.Constant(1)] if len(z) == 1 else [z[0], z[1], z[2] if len(z) == 3 else ast.Constant(1)]
             rs = [expr_same(x, y) for x, y in zip(parts(a), parts(b))]
+            if False in rs and _reversed_ranges(parts(a), parts(b)):
+                # AUDIT: the same values in the opposite order: another result only if the iterations depend on one another in a way
+                # that is not a re-association of a sum (which the property allows) - a matter of the loop body, not decided here
+                return None
             return False if False in rs else (None if None in rs else True)
-        if src(a.func) != src(b.func):
-            return False if len(a.args) == len(b.args) and all(expr_same(x, y) is True for x, y in zip(a.args, b.args)) else None
+        # AUDIT (calls).  A call is a different value only under assumptions that are checked here:
+        #  - two different NAMES are two different functions only when both are kernels defined in both modules being compared
+        #    (library names may be aliases of one another - abs / fabs, mod / remainder, int / floor on non-negative values -
+        #    and empty / zeros differ only in cells that are overwritten anyway): anything else is not comparable;
+        #  - the same kernel with different arguments is a different value (the kernel is an arbitrary function of its
+        #    arguments; a convention moved between caller and callee is looked at by the caller of this comparison, see
+        #    `_callee_differs`); a library function with different arguments decides nothing here (abs(a - b) is abs(b - a),
+        #    max(a, b) is max(b, a), (i + n) % n is i % n): those go to the formula comparison below, which knows the
+        #    interpreted ones and refuses to separate two formulas over different opaque applications;
+        #  - another number of arguments (after keywords and defaults of module functions were written out): not comparable.
+        fa_, fb_ = src(a.func), src(b.func)
+        defined = _CTX["defined"]
+        if (fa_ in _CTX["changed"] or fb_ in _CTX["changed"]) and ast.dump(a) != ast.dump(b):
+            # AUDIT (caller + callee are one unit): the called kernel is itself written differently in the copy, so other arguments
+            # (or another kernel) at this call may be the other half of ONE change of convention between caller and callee
+            return None
+        if fa_ != fb_:
+            if fa_ in defined and fb_ in defined:
+                return False if len(a.args) == len(b.args) and all(expr_same(x, y) is True for x, y in zip(a.args, b.args)) else None
+            return None
+        if fa_ in defined:
+            if len(a.args) != len(b.args):
+                return None
+            rs = [expr_same(x, y) for x, y in zip(a.args, b.args)]
+            return False if False in rs else (None if None in rs else True)
         if len(a.args) != len(b.args):
-            return False
+            return None
         rs = [expr_same(x, y) for x, y in zip(a.args, b.args)]
-        return False if False in rs else (None if None in rs else True)
+        if all(r is True for r in rs):
+            return True
+        if None in rs and False not in rs:
+            return None
+        # a library function whose arguments differ: fall through to the formula comparison
     if isinstance(a, ast.Subscript) and isinstance(b, ast.Subscript) and isinstance(a.ctx, ast.Store):
         if src(a.value) != src(b.value):
             return False
@@ -1858,14 +2039,79 @@ def expr_same(a, b):
         num = sp.expand(sp.numer(d))
         if num == 0:
             return True
-        return True if _numerically_equal(sa, sb) else False
+        ne = _numerically_equal(sa, sb)
+        if ne is True:
+            return True
+        if ne is None:
+            return None          # equal wherever every atom is positive, different for some signs: a matter of the domain, not decided
+        # AUDIT: "different as formulas" is a statement about polynomials over atoms that are INDEPENDENT unknowns.  Symbols and
+        # array elements (at_X(index): data the callers choose) are; applications of an uninterpreted function (int, abs, min, max,
+        # %, //, a kernel call ...) are independent of each other only when they are the SAME applications on both sides - with
+        # different applications the two sides may still be equal by a law of that function the comparison does not know
+        # (abs(-x) = abs(x), (i + n) % n = i % n, int(x + 1) = int(x) + 1).  Then nothing is decided.
+        if _opaque_applications(sa) != _opaque_applications(sb):
+            # ... except `(E + c) % n` against `E % n` with c a non-zero number and the rest of the formulas the same: different
+            # for every modulus that does not divide c (the modulus is a size the callers choose)
+            return False if _shifted_remainder(sa, sb) else None
+        return False
     except Exception:
         return None
 
 
+# "defined": kernels defined in BOTH modules being compared; "changed": those of them whose body in the copy is not the body of the
+# reference in canonical form (set by body_equivalence / the V3 comparison)
+_CTX = {"defined": set(), "changed": set()}
+
+
+def _opaque_applications(e):
+    """the applications of uninterpreted functions other than array elements that occur anywhere in the formula (as text)"""
+    import sympy as sp
+    from sympy.core.function import AppliedUndef
+    return {sp.sstr(a) for a in e.atoms(AppliedUndef) if not a.func.__name__.startswith("at_")}
+
+
+def _shifted_remainder(sa, sb):
+    """the two formulas are the same except for ONE application that is recognisably another value:
+     - pymod(E1, n) against pymod(E2, n) with the same n and E1 - E2 a non-zero integer (different for every modulus that does not
+       divide the difference; the modulus is a size the callers choose);
+     - a kernel defined (and written the same) in both modules, applied to arguments of which one differs as a formula over the
+       same atoms (the kernel is an arbitrary function of its arguments)"""
+    import sympy as sp
+    from sympy.core.function import AppliedUndef
+    oa = {x for x in sa.atoms(AppliedUndef) if not x.func.__name__.startswith("at_")}
+    ob = {x for x in sb.atoms(AppliedUndef) if not x.func.__name__.startswith("at_")}
+    only_a, only_b = [x for x in oa if x not in ob], [x for x in ob if x not in oa]
+    # applications that contain a differing application differ too: look at the innermost ones
+    inner_a = [x for x in only_a if not any(y is not x and x.has(y) for y in only_a)]
+    inner_b = [x for x in only_b if not any(y is not x and x.has(y) for y in only_b)]
+    if len(inner_a) != 1 or len(inner_b) != 1:
+        return False
+    x1, x2 = inner_a[0], inner_b[0]
+    if x1.func.__name__ != x2.func.__name__ or len(x1.args) != len(x2.args):
+        return False
+    if sp.expand(sa.xreplace({x1: x2}) - sb) != 0:
+        return False          # something else differs as well
+    name = x1.func.__name__
+    if name == "pymod":
+        d = sp.expand(x1.args[0] - x2.args[0])
+        return sp.expand(x1.args[1] - x2.args[1]) == 0 and bool(d.is_Integer) and d != 0
+    if name.startswith("call_") and name[5:] in _CTX["defined"] and name[5:] not in _CTX["changed"]:
+        differs = False
+        for u, w in zip(x1.args, x2.args):
+            if sp.expand(u - w) == 0:
+                continue
+            if _opaque_applications(u) != _opaque_applications(w) or _numerically_equal(u, w) is not False:
+                return False
+            differs = True
+        return differs
+    return False
+
+
 def _numerically_equal(sa, sb):
     """two formulas that differ as written but agree (to rounding) at random values of all their atoms: the same function, e.g.
-    1/6 against 0.16666666666666666, exp(a)*exp(b) against exp(a + b)"""
+    1/6 against 0.16666666666666666, exp(a)*exp(b) against exp(a + b) -> True; False when they differ already at positive values of
+    the atoms; None when they agree at positive values and differ for some signs (sqrt(x**2) against x: which of the two is meant
+    depends on the domain of x, which is not known here)"""
     import random
     import sympy as sp
     from sympy.core.function import AppliedUndef
@@ -1876,15 +2122,23 @@ def _numerically_equal(sa, sb):
         except Exception:
             return False
     rnd = random.Random(20260925)
-    try:
+
+    def agree(lo, hi):
         for _ in range(3):
-            rule = {a_: sp.Float(rnd.uniform(0.6, 1.9), 30) for a_ in atoms}
+            rule = {a_: (sp.Float(rnd.uniform(0.6, 1.9), 30) if a_.is_positive else sp.Float(rnd.uniform(lo, hi), 30)) for a_ in atoms}
             va, vb = complex(sp.N(sa.xreplace(rule), 30)), complex(sp.N(sb.xreplace(rule), 30))
             if not (abs(va - vb) <= 1e-12 * (abs(va) + abs(vb) + 1e-30)):
                 return False
         return True
+    try:
+        if not agree(0.6, 1.9):
+            return False
     except Exception:
         return False
+    try:
+        return True if agree(-1.9, 1.9) else None
+    except Exception:
+        return None
 
 
 def consumers(chk):
@@ -1972,14 +2226,36 @@ def expand_call(call):
             cls = parent(call)
             while cls is not None and not isinstance(cls, ast.ClassDef):
                 cls = parent(cls)
-            sets = [n for n in ast.walk(cls) if isinstance(n, (ast.Assign, ast.AugAssign, ast.AnnAssign))
+            # (the class together with the base classes / mixins defined in the same module: an attribute may be provided by any of them)
+            family, todo = [], [cls] if cls is not None else []
+            mod_ = cls
+            while mod_ is not None and not isinstance(mod_, ast.Module):
+                mod_ = parent(mod_)
+            by_name = {st.name: st for st in (mod_.body if mod_ is not None else []) if isinstance(st, ast.ClassDef)}
+            while todo:
+                c_ = todo.pop()
+                if any(c_ is f_ for f_ in family):
+                    continue
+                family.append(c_)
+                todo += [by_name[b_.id] for b_ in c_.bases if isinstance(b_, ast.Name) and b_.id in by_name]
+            sets = [n for c_ in family for n in ast.walk(c_) if isinstance(n, (ast.Assign, ast.AugAssign, ast.AnnAssign))
                     for t in (n.targets if isinstance(n, ast.Assign) else [n.target])
                     for x in ast.walk(t) if isinstance(x, ast.Attribute) and x.attr == e.attr and isinstance(x.value, ast.Name)
-                    and x.value.id == "self" and isinstance(x.ctx, ast.Store)] if cls is not None else []
+                    and x.value.id == "self" and isinstance(x.ctx, ast.Store)]
             # ... or a class-level constant `attr = <display>` that no method re-binds
-            level = [st for st in (cls.body if cls is not None else []) if isinstance(st, ast.Assign) and len(st.targets) == 1
+            level = [st for c_ in family for st in c_.body if isinstance(st, ast.Assign) and len(st.targets) == 1
                      and isinstance(st.targets[0], ast.Name) and st.targets[0].id == e.attr]
-            if len(level) == 1 and not sets:
+            # ... or a property (plain or cached) whose one `return` gives a display: `*self.params` then has as many elements as
+            # the display, whatever object the property is read on
+            props = [st for c_ in family for st in c_.body if isinstance(st, ast.FunctionDef) and st.name == e.attr
+                     and any(src(d).split(".")[-1] in ("property", "cached_property") for d in st.decorator_list)]
+            if len(props) == 1 and not sets and not level:
+                rets = [n for n in ast.walk(props[0]) if isinstance(n, ast.Return)]
+                if len(rets) == 1 and rets[0].value is not None:
+                    e = rets[0].value
+                else:
+                    return None, None
+            elif len(level) == 1 and not sets:
                 e = level[0].value
             elif len(sets) != 1 or level or not isinstance(sets[0], ast.Assign) or len(sets[0].targets) != 1 \
                     or not isinstance(sets[0].targets[0], ast.Attribute):
@@ -2048,9 +2324,12 @@ def keyword_calls(chk):
     """{function name: set of keyword names some library call passes}"""
     out: dict[str, set] = {}
     for rel in LIBS:
+        aliases = _kernel_module_aliases(chk.mod(rel))
         for c in ast.walk(chk.mod(rel).tree):
             if isinstance(c, ast.Call) and c.keywords:
-                name = c.func.id if isinstance(c.func, ast.Name) else c.func.attr if isinstance(c.func, ast.Attribute) else None
+                # (a method that happens to have the name of a kernel is not a call of it: attribute calls count only on a kernel module)
+                name = c.func.id if isinstance(c.func, ast.Name) else c.func.attr if isinstance(c.func, ast.Attribute) \
+                    and isinstance(c.func.value, ast.Name) and c.func.value.id in aliases else None
                 for name in ([name] if name else []) + sorted(_dispatched(chk, c)):
                     out.setdefault(name, set()).update(k.arg for k in c.keywords if k.arg)
                     if any(k.arg is None for k in c.keywords):
@@ -2113,6 +2392,25 @@ def _dispatched(chk, c):
     return set()
 
 
+def _kernel_module_aliases(mod):
+    """names under which a kernel module as a whole is imported in the module (`from ..initialisation import initialiser_funcs as init`)"""
+    cached = getattr(mod, "_c19_kaliases", None)
+    if cached is not None:
+        return cached
+    kmods = {k.split("/")[-1][:-3] for k in U.KERNELS}
+    aliases = set()
+    for st in mod.tree.body:
+        if isinstance(st, ast.ImportFrom):
+            aliases |= {a.asname or a.name for a in st.names if a.name in kmods}
+        elif isinstance(st, ast.Import):
+            aliases |= {a.asname for a in st.names if a.asname and a.name.split(".")[-1] in kmods}
+    try:
+        mod._c19_kaliases = aliases
+    except Exception:
+        pass
+    return aliases
+
+
 def library_calls(chk):
     """{function name: [(file, call, positional arguments, {keyword: value}, problem)]} of the library calls by that name
     (starred arguments written out, see expand_call)"""
@@ -2133,6 +2431,10 @@ def library_calls(chk):
                     continue
                 if name is None or (isinstance(c.func, ast.Name) and (_shadowed(c, name) or not _imported(mod, name, c))):
                     continue
+                # AUDIT: `obj.name(...)` is a call of the kernel `name` only when obj is a kernel MODULE imported as a whole; a
+                # method that happens to have the name of a kernel is not a call of it
+                if isinstance(c.func, ast.Attribute) and not (isinstance(c.func.value, ast.Name) and c.func.value.id in _kernel_module_aliases(mod)):
+                    continue
                 args, kws, problem = expand_call(c)
                 out.setdefault(name, []).append((rel, c, args, kws, problem))
     chk.__dict__["_c19_libcalls"] = out
@@ -2146,7 +2448,11 @@ def parameter_lists(chk, fn, vf, q, kwcalls):
     if vf.args.vararg or vf.args.kwarg or vf.args.kwonlyargs or fn.args.vararg or fn.args.kwarg or fn.args.kwonlyargs:
         same = ast.dump(_bare_args(fn)) == ast.dump(_bare_args(vf))
         return (True, "same parameter list") if same else (None, "variadic / keyword-only parameters: binding not compared")
-    calls = library_calls(chk).get(q, [])
+    # AUDIT (V1): "a call written for the reference does not bind in the copy" needs a call that really meets the copy: a call in
+    # flavour-independent library code (or in another kernel module, whose copy is compared with it call by call).  Calls inside the
+    # reference module ITSELF are not evidence - the copy has its own callers, which V4 compares - so they are left out here.
+    own = next((k for k in U.KERNELS if chk.mod(k).has(q) and chk.mod(k).func(q) is fn), None)
+    calls = [c for c in library_calls(chk).get(q, []) if c[0] != own]
     unfollowed = [c for c in calls if c[4] is not None and not isinstance(c[4], tuple)]
 
     def at(c):
@@ -2807,11 +3113,79 @@ def guarded_values(chk, ref, v, q, fn, vfr, vm, pure):
         return None, f"not a loop-free function ({e})"
     if not any(vals or sts for _, vals, sts in TA):
         return None, "the function returns no value and stores nothing"
-    int_syms = {a.arg for a in fn.args.args if a.annotation is not None and re.fullmatch(r"['\"]?\s*int\d*\s*['\"]?", src(a.annotation))}
+    # (integer scalars by their declared kind: 'int', int, 'int64', 'Final[int]' ...)
+    int_syms = {a.arg for a in fn.args.args if a.annotation is not None and _type_kind(src(a.annotation)) in (("int", 0), ("bool", 0))}
+    declared = {a.arg for a in fn.args.args if a.annotation is not None and _type_kind(src(a.annotation)) is not None}
+    if any(a.arg not in declared for a in fn.args.args):
+        # AUDIT: satisfiability of a region is decided over the reals for every parameter that is not known to be an integer; a
+        # parameter whose kind is not readable (TypeVar, no annotation) may be an integer, for which a region such as 0 < p < 1 is
+        # empty: no verdict by this engine
+        return None, "a parameter of the reference has no readable scalar / array type: path regions are not decided"
     try:
         return _g_compare(TA, TB, int_syms)
     except _NotTabular as e:
         return None, f"guarded values not comparable ({e})"
+
+
+def _mode_literals_differ(fn, vfr):
+    """an integer / boolean scalar parameter of the reference that the two bodies compare with different sets of literals
+    -> (parameter, literals in the reference, literals in the copy), else None"""
+    for a_ in fn.args.args:
+        k_ = _type_kind(src(a_.annotation)) if a_.annotation is not None else None
+        if k_ is None or k_[1] != 0 or k_[0] not in ("int", "bool"):
+            continue
+        la, _ = _mode_tests(fn, a_.arg)
+        lb, _ = _mode_tests(vfr, a_.arg)
+        if la != lb:
+            return a_.arg, la, lb
+    return None
+
+
+def _strictness_flip(fa, fb):
+    """a pair of operands (input data: a float argument, an element of an array argument) that both bodies compare, but not with the
+    same set of operators -> (text in fa, text in fb), else None"""
+    def table(f):
+        out = {}
+        for n in ast.walk(f):
+            if isinstance(n, ast.Compare) and len(n.ops) == 1 and _is_input_data(n):
+                out.setdefault((ast.dump(n.left), ast.dump(n.comparators[0])), {})[type(n.ops[0]).__name__] = src(n)
+        return out
+    ta, tb = table(fa), table(fb)
+    for key in ta:
+        if key in tb:
+            only_a, only_b = set(ta[key]) - set(tb[key]), set(tb[key]) - set(ta[key])
+            if only_a or only_b:
+                return ta[key][sorted(only_a or ta[key])[0]], tb[key][sorted(only_b or tb[key])[0]]
+    return None
+
+
+def _changed_helpers(chk, ref, v, vm, pure):
+    """the functions defined in both modules whose body in the copy is not the body of the reference (as written, nor in canonical
+    form)"""
+    cache = chk.__dict__.setdefault("_c19_changed", {})
+    key = (ref, v)
+    if key in cache:
+        return cache[key]
+    rm = chk.mod(ref)
+    out = set()
+    for g, fg in rm.functions().items():
+        if "." in g or not vm.has(g):
+            continue
+        try:
+            vg = vm.func(g)
+            if norm_fn(fg) == norm_fn(vg):
+                continue
+            vgr = _rename_params(vg, [a.arg for a in fg.args.args])
+            if vgr is not None:
+                ca, cb = canon_fn(fg, pure, rm.tree), canon_fn(vgr, pure, vm.tree)
+                ca.args = cb.args = _bare_args(ca)
+                if ast.dump(ca) == ast.dump(cb):
+                    continue
+        except Exception:
+            pass
+        out.add(g)
+    cache[key] = out
+    return out
 
 
 def body_equivalence(chk, ref, v, q, fn, vf, vm, flavour, pure):
@@ -2843,6 +3217,8 @@ def body_equivalence(chk, ref, v, q, fn, vf, vm, flavour, pure):
                    f"their defaults ({', '.join(x + '=' + src(dflt[x]) for x in extra)})", file=v, func=q, nontrivial=False)
             fn = spec
     _DATA["scalars"], _DATA["arrays"] = set(), set()
+    _CTX["defined"] = {n_ for n_ in chk.mod(ref).functions() if "." not in n_} & {n_ for n_ in vm.functions() if "." not in n_}
+    _CTX["changed"] = _changed_helpers(chk, ref, v, vm, pure)
     for a_ in fn.args.args:
         k_ = _type_kind(src(a_.annotation)) if a_.annotation is not None else None
         if k_ is not None and k_[1] == 0 and k_[0] in ("float", "float32", "complex"):
@@ -2902,21 +3278,67 @@ def body_equivalence(chk, ref, v, q, fn, vf, vm, flavour, pure):
             element_note = (" [both sides only fill " + ", ".join(f"{X}[{', '.join(T)}]" for X, T in sorted(ea[1].items())) +
                             " element by element over the same index ranges; they are compared as the program of ONE element, i.e. with "
                             "the index loops removed]")
+    before_spec = len(chk.obs)
     res, why = spec_check(chk, v, q, vm)
     if res is False:
-        return False
+        # AUDIT: a VIOLATED verdict of the specification engine (C07 / C12) is a statement about THIS copy only as far as the engine
+        # models every construct of the body.  The engine is known to read the constructs the sibling flavours use (they pass it); a
+        # kind of expression / statement or a called function that only the flagged body has may have been mis-read (found by
+        # probe: `norm = max(diff, norm)` for `if diff > norm: norm = diff`).  Then the engine's diagnosis is not used and the copy
+        # is compared with the reference directly.
+        novel = _novel_constructs(vf, fn, vm.tree, chk.mod(ref).tree)
+        if not novel:
+            return False
+        _drop(chk, before_spec)
+        res, why = None, (f"the specification engine reports a difference, but the copy uses {novel}, which the reference (on which "
+                          "the engine is known to work) does not: its diagnosis is not relied on")
     if res is True:
         if q == "f_eq":
             return True           # compared with the reference's formula directly
+        before_ref = len(chk.obs)
+        fresh = (ref, q) not in chk.__dict__.get("_c19_refspec", {})
         rres, rwhy = reference_spec(chk, ref, q, pure)
         if rres is True:
-            return True
-        if rres is False:
+            # both bodies satisfy the formula.  The formula identifies a strict with a non-strict comparison of data (they differ on a
+            # set of measure zero) - but points exactly on a boundary are among the arguments this property names.  When the two
+            # bodies do not make the same comparisons of input data, "both satisfy the formula" does not settle their equality: the
+            # bodies are then compared directly as well (found by probe: `r > rMax` against `r >= rMax` in the boundary fill).
+            # ... and the formula speaks about the modes it knows (der = 0 / 1, the two boundary treatments): a body that also tests a
+            # mode parameter against a literal the other body never mentions has a mode of its own, about which the agreement with
+            # the formula says nothing (found by probe: `elif der == 2: return 0.0` added to one flavour only)
+            flip = _strictness_flip(ca, cb) if ca is not None else None
+            extra = _mode_literals_differ(fn, vfr) if vfr is not None else None
+            if flip is None and extra is None:
+                return True
+            if flip is not None:
+                rres, rwhy = None, ("both bodies satisfy the specification formula, which does not tell `<` from `<=`, but the copy compares "
+                                    f"`{flip[1]}` where the reference compares `{flip[0]}` (same operands, another operator)")
+            else:
+                rres, rwhy = None, (f"both bodies satisfy the specification formula, but they do not test the mode parameter `{extra[0]}` "
+                                    f"against the same literals ({sorted(extra[1])} in the reference, {sorted(extra[2])} in the copy): one of "
+                                    "them has a mode the formula does not speak about")
+            why = rwhy
+            res = None
+        if rres is False and _novel_constructs(fn, vf, chk.mod(ref).tree, vm.tree):
+            # (same caveat, the other way round: the reference is the body the engine may have mis-read)
+            novel = _novel_constructs(fn, vf, chk.mod(ref).tree, vm.tree)
+            if fresh:
+                _drop(chk, before_ref)
+            chk.__dict__.setdefault("_c19_refspec_suspect", set()).add((ref, q))
+            rres, rwhy = None, (f"the engine reports a difference for the reference, which uses {novel} that this copy (which passes) does "
+                                "not: its diagnosis is not relied on")
+        if rres is None and res is None:
+            pass
+        elif rres is False:
+            # AUDIT: true when the engine's two verdicts are (copy == formula, reference != formula, both read correctly); the second
+            # rests on the engine modelling every construct of the reference - checked above by `_novel_constructs` against the copy
+            # that passes; the verdict on the reference as written is confirmed on its canonical form before it is used (reference_spec)
             chk.ob(R, vf, con, False, f"the {flavour} copy satisfies the specification formula of `{q}`, the reference {ref} does not (see the "
                    "obligations recorded for the reference): the copy does not compute what the source it mirrors computes",
                    file=v, func=q)
             return False
-        why = f"the copy satisfies the specification formula but the reference could not be checked against it ({rwhy})"
+        if res is True:
+            why = f"the copy satisfies the specification formula but the reference could not be checked against it ({rwhy})"
     # no (applicable) specification formula: a loop-free value function is compared as a table of guarded values
     if vfr is not None:
         gres, gwhy = guarded_values(chk, ref, v, q, fn, vfr, vm, pure)
@@ -2927,6 +3349,13 @@ def body_equivalence(chk, ref, v, q, fn, vf, vm, flavour, pure):
                    "elimination)", file=v, func=q)
             return True
         if gres is False:
+            # AUDIT (engine G): true when (1) both bodies were turned into complete tables - any statement, call or expression outside
+            # the modelled fragment raises _NotTabular (no default branch guesses); (2) the pair of paths quoted is jointly
+            # satisfiable - claimed only when the terms of the conditions are independent unknowns (symbols, one element per array, a
+            # private factor), int(...) is tied to its argument by the truncation axioms, integer parameters are known as such (every
+            # parameter has a readable declared type, see guarded_values) and the integer part is a difference system; (3) the two
+            # values differ there - a sign decided by the same elimination, or a non-zero polynomial of the inputs on a region with
+            # non-empty interior.  Calls of functions are uninterpreted and never support a difference.
             chk.ob(R, vf, con, False, f"the {flavour} copy and the reference {ref.split('/')[-1]} are both loop-free functions and "
                    f"were compared path by path: {gwhy}", file=v, func=q)
             return False
@@ -3030,7 +3459,11 @@ def body_equivalence(chk, ref, v, q, fn, vf, vm, flavour, pure):
                 reordered = len({id(x[3]) for x in differing_c}) >= 2 and \
                     sorted({id(x[3]): ast.dump(x[3]) for x in differing_c}.values()) == sorted({id(x[4]): ast.dump(x[4]) for x in differing_c}.values())
                 if wrong_c and len(wrong_c) == len(differing_c) and len(wrong_c) <= 3 and not reordered \
-                        and not any(x[5] == "target" for x in wrong_c):
+                        and not any(x[5] == "target" for x in wrong_c) and _entangled(wrong_c, differing_c) is None:
+                    # AUDIT: true when the mode really is an integer / boolean argument only compared with literals (mode_cases), the
+                    # case is a single value of it (all_point), the two specialised bodies correspond statement by statement, EVERY
+                    # differing pair is recognisably different (expr_same False under the assumptions stated there), none is a store
+                    # target, and the differences do not feed one another (_entangled)
                     for _, a_, b_, sa_, sb_, w_ in wrong_c:
                         head = src(sb_).splitlines()[0][:70]
                         chk.ob(R, vf, f"{con}: case {where}: {w_} of `{head}`", False,
@@ -3079,6 +3512,9 @@ def body_equivalence(chk, ref, v, q, fn, vf, vm, flavour, pure):
                        f"shifted by {c_} ({info}) and every use compensates the shift: the same values are computed", file=v, func=q)
                 return True
             if kind == "inconsistent":
+                # AUDIT: true when the local is bound exactly once in the copy, its definition differs from the reference's by a
+                # constant, and with that constant taken out of the definition and of every use a pair that mentions the local is
+                # still recognisably different: that use does not follow the shift (any other kind of re-definition: undecided)
                 _, a_, b_, sa_, sb_, w_ = info[1]
                 chk.ob(R, vf, f"{con}: {w_} of `{src(sb_).splitlines()[0][:70]}`", False,
                        f"the {flavour} copy defines the local `{x_}` shifted by {c_} with respect to the reference ({info[0]}); with that shift "
@@ -3095,7 +3531,7 @@ def body_equivalence(chk, ref, v, q, fn, vf, vm, flavour, pure):
                 wrong = info          # the shift is consistent; what remains differs independently of it
         # is every difference explained by ONE permutation of the axes of one array?  Then the copy is the reference written for
         # another memory layout of that array, not an operand slip
-        lay = _axis_permutation(cb, wrong, rejudge, {a.arg for a in cb.args.args})
+        lay = _axis_permutation(cb, wrong, rejudge, {a.arg for a in cb.args.args}, rejudge(cb.body))
         if lay is not None:
             X, sigma, n_acc, is_param, rest = lay
             perm = ", ".join(f"axis {p_} of the reference is axis {sigma[p_]} of the copy" for p_ in range(len(sigma)) if sigma[p_] != p_)
@@ -3109,6 +3545,19 @@ def body_equivalence(chk, ref, v, q, fn, vf, vm, flavour, pure):
                    f"{'the same as' if rest else 'not shown to differ from'} the reference {ref.split('/')[-1]}: reference and copy are written "
                    f"for two different memory layouts of `{X}`; they give the same results only if each is handed the array in its own layout, "
                    "which depends on the callers and is not decided here", file=v, func=q)
+            return None
+    # AUDIT: "the copy has E' where the reference has E, everything else corresponds" is an operand slip only when the differences
+    # do not feed one another.  A difference in the DEFINITION of a local / of the cells of an array together with a difference
+    # where that local / array is USED (or target and value of one store both written differently) may be one change of
+    # convention between a writer and its readers (sign, scale, origin of a scratch table), and a difference that could not be
+    # compared may make up for one that could.  The constant-shift and axis-permutation forms were decided above; any other
+    # entangled set of differences is not decided.
+    if wrong:
+        tangle = _entangled(wrong, differing)
+        if tangle is not None:
+            chk.ob(R, vf, con, None, f"the {flavour} copy differs from the reference {ref.split('/')[-1]} in {len(differing)} places that feed one "
+                   f"another ({tangle}): possibly one consistent change of convention between a definition and its uses; whether the "
+                   f"differences compensate is not decided ({why})", file=v, func=q)
             return None
     for _, a, b, sa, sb, what in wrong[:4]:
         head = src(sb).splitlines()[0][:70]
@@ -3127,6 +3576,10 @@ def body_equivalence(chk, ref, v, q, fn, vf, vm, flavour, pure):
                     "of that side: ONE conditional shift of a period, which equals the reduction `x % A` of the other side only while x lies "
                     "within one period of the range; x is computed from input data (array elements / float arguments), which no statement "
                     "bounds: for a larger displacement the two sides hand different points on]")
+        # AUDIT: true when the canonical bodies have the same statement skeleton, this pair is recognisably different (expr_same
+        # False: see the assumptions there - independent atoms, kernels of both modules, conditions with equal operands), every name
+        # in it is bound visibly, no equality of the path makes one side a rewriting of the other, the called kernels are not
+        # themselves changed, and the difference is not entangled with another one (checked above)
         chk.ob(R, vf, f"{con}: {what} of `{head}`", False,
                f"the {flavour} copy has `{_short(b)}` where the reference {ref.split('/')[-1]} has `{_short(a)}` ({what} of `{head}`); all "
                "other statements correspond one to one, and the two expressions are not equal as formulas: the copy does not compute "
@@ -3354,6 +3807,85 @@ def mode_cases(fn, vfr, pure, tree_a, tree_b):
                   ", ".join(f"`{p}` ({'; '.join(d for d, _, _ in modes[p])})" for p in names)), None
 
 
+def _assigned_bases(st):
+    """names (scalars, bases of stored arrays, loop counters) the statement itself binds or stores into"""
+    out = set()
+    if isinstance(st, ast.Assign):
+        for t in st.targets:
+            for e in (t.elts if isinstance(t, (ast.Tuple, ast.List)) else [t]):
+                out.add(_base_name(e))
+    elif isinstance(st, ast.For):
+        out |= {n.id for n in ast.walk(st.target) if isinstance(n, ast.Name)}
+    return out
+
+
+def _entangled(wrong, differing):
+    """a recognised difference that is not independent of the other differences -> text, else None: another differing statement
+    binds / stores into something this one reads (or the other way round), or target and value of one store both differ"""
+    def names(e):
+        return {n.id for n in ast.walk(e) if isinstance(n, ast.Name)}
+    for P in wrong:
+        _, a, b, sa, sb, what = P
+        if what == "loop range" and len(differing) > 1:
+            # a loop that runs over another range while some other statement differs as well: iterations may have been peeled off
+            # the loop or merged into it (X = T(0); for k in range(1, n): X += T(k)  is  X = 0; for k in range(n): X += T(k))
+            other = next(Q for Q in differing if Q is not P)
+            return (f"the loop `{_short(sb, 50)}` runs over another range and `{_short(other[4], 50)}` differs too: iterations may have been "
+                    "peeled off the loop or merged into it")
+        for Q in differing:
+            if Q is P:
+                continue
+            _, a2, b2, sa2, sb2, what2 = Q
+            if sb2 is sb:
+                if {what, what2} == {"target", "value"}:
+                    return f"target and value of `{_short(sb, 60)}` are both written differently"
+                continue
+            hit = ((_assigned_bases(sa2) | _assigned_bases(sb2)) & (names(a) | names(b))) | \
+                ((_assigned_bases(sa) | _assigned_bases(sb)) & (names(a2) | names(b2)))
+            if hit:
+                return (f"`{_short(sb, 50)}` and `{_short(sb2, 50)}` both differ from their counterparts and are connected through "
+                        f"`{sorted(hit)[0]}`")
+    return None
+
+
+_EXOTIC = (ast.IfExp, ast.ListComp, ast.SetComp, ast.DictComp, ast.GeneratorExp, ast.Lambda, ast.NamedExpr, ast.Starred, ast.JoinedStr,
+           ast.Dict, ast.Set, ast.Try, ast.With, ast.Assert, ast.Delete, ast.Global, ast.Nonlocal, ast.Match if hasattr(ast, "Match") else ast.Try)
+
+
+def _novel_constructs(f_flagged, f_other, tree_flagged=None, tree_other=None):
+    """what the body of `f_flagged` (with the helpers of its module that it calls, which the engines inline) uses and the body of
+    `f_other` (with its helpers) does not, among the things an extractor may silently mis-read: calls of library / builtin functions
+    (max, min, where, clip, ...) and unusual kinds of expressions and statements (conditional expressions, comprehensions, lambdas,
+    walrus, star-expressions, try / with / assert) -> sorted list of texts.  Ordinary statements, operators and calls of functions
+    defined in the module itself are not listed: the engines read those in every flavour."""
+    def inventory(f, tree):
+        ren, _mods = _import_aliases(f, tree)
+        defs = {st.name: st for st in (tree.body if tree is not None else []) if isinstance(st, ast.FunctionDef)}
+        kinds, calls, seen, work = set(), set(), set(), [f]
+        while work:
+            g0 = work.pop()
+            if id(g0) in seen:
+                continue
+            seen.add(id(g0))
+            g = _strip(g0)
+            local = {a.arg for a in g.args.args}
+            for n in ast.walk(g):
+                if isinstance(n, _EXOTIC):
+                    kinds.add(type(n).__name__)
+                if isinstance(n, ast.Call):
+                    nm = src(n.func).split(".")[-1]
+                    if isinstance(n.func, ast.Name) and nm in defs and nm not in local:
+                        work.append(defs[nm])
+                    elif not (isinstance(n.func, ast.Name) and nm in local):
+                        calls.add(ren.get(nm, nm))
+        return kinds, calls
+    try:
+        (ka, ca_), (kb, cb_) = inventory(f_flagged, tree_flagged), inventory(f_other, tree_other)
+    except Exception:
+        return ["a body that could not be read"]
+    return sorted(ka - kb) + sorted(f"a call of `{c}`" for c in ca_ - cb_)
+
+
 def _local_convention(cb, wrong, rejudge_full):
     """a wrong pair that defines a local / loop counter x while other wrong pairs use x
     -> ('same', x, c, text) | ('inconsistent', x, c, (text, pair)) | ('undecided', x, n, text) | ('other', x, c, remaining wrong) | None"""
@@ -3444,7 +3976,7 @@ def _local_convention(cb, wrong, rejudge_full):
     return None
 
 
-def _axis_permutation(cb, wrong, rejudge, params):
+def _axis_permutation(cb, wrong, rejudge, params, before=None):
     """-> (array, sigma, number of accesses, is parameter, everything else proved equal) when permuting the axes of one array in the
     copy `cb` (sigma[p] = axis of the copy that plays the role of axis p of the reference) removes every recognised difference"""
     import itertools
@@ -3521,6 +4053,10 @@ def _axis_permutation(cb, wrong, rejudge, params):
             vs = rejudge(f.body)
             if vs is None or any(x is False for x in vs):
                 continue
+            # AUDIT: the permutation explains the differences only when every pair that was recognisably different is EQUAL once the
+            # axes are permuted back (a pair that merely became incomparable is not explained by it)
+            if before is not None and (len(before) != len(vs) or any(o is False and n_ is not True for o, n_ in zip(before, vs))):
+                continue
             return X, sigma, n_acc[0], is_param, (all(x is True for x in vs) and clean[0] and uses_ok)
     return None
 
@@ -3529,6 +4065,30 @@ def _short(e, n=110):
     t = src(e).replace("\n", " ")
     return t if len(t) <= n else t[:n] + "..."
 
+
+
+def _module_level_names(tree):
+    """every name bound by a statement of the module outside function and class bodies (assignments, imports, defs, classes, loop
+    and `with` targets, also inside `if` / `try` at module level); `from x import *` -> the marker '*' """
+    out = set()
+
+    def go(block):
+        for st in block:
+            if isinstance(st, (ast.FunctionDef, ast.AsyncFunctionDef, ast.ClassDef)):
+                out.add(st.name)
+                continue
+            if isinstance(st, (ast.Import, ast.ImportFrom)):
+                out.update((a.asname or a.name).split(".")[0] for a in st.names)
+                continue
+            for n in ast.walk(st):
+                if isinstance(n, ast.Name) and isinstance(n.ctx, ast.Store):
+                    out.add(n.id)
+                elif isinstance(n, (ast.FunctionDef, ast.ClassDef)):
+                    out.add(n.name)
+                elif isinstance(n, (ast.Import, ast.ImportFrom)):
+                    out.update((a.asname or a.name).split(".")[0] for a in n.names)
+    go(tree.body)
+    return out
 
 
 def reference_inputs(chk):
@@ -3544,6 +4104,9 @@ def reference_inputs(chk):
                      and "[" in src(a.annotation).replace("Final[", "", 1)}
             if not final:
                 continue
+            # AUDIT: true when the annotation really is Final[<array>] and lints.shared_state_mutations reports a store that reaches
+            # the parameter's own array (direct store, in-place operator, view / alias of it, out= / overwrite flag); a copy
+            # (`.copy()`, arithmetic result) is a new array and is not followed (engine: pgverif/lints.py)
             muts = list(lints.shared_state_mutations(fn, lambda s_, final=final: s_ in final))
             for node, desc in muts:
                 chk.ob("V5-inputs-not-written", node, f"{ref}:{q}: {src(node)[:70]}", False,
@@ -3567,11 +4130,15 @@ def variant_agreement(chk):
             vm = chk.mod(v)
             flavour = "numba" if "numba_" in v else "pythran"
             # V1: consumer names and parameter lists
-            missing = sorted(n for n in want[ref] if rm.has(n) and not vm.has(n))
+            # AUDIT: "the copy does not define the name" is true only when NOTHING binds it at module level: a name provided by an
+            # assignment (`init_f = _init_f_impl`), an import (`from .x import f`) or a conditional definition is defined too
+            bound_v = _module_level_names(vm.tree)
+            missing = sorted(n for n in want[ref] if rm.has(n) and not vm.has(n) and n not in bound_v and "*" not in bound_v)
             chk.ob("V1-consumer-names", vm.tree, f"{v}: names imported by the library from {ref.split('/')[-1]}", not missing,
                    f"all {len(want[ref])} imported names are defined by the {flavour} copy" if not missing else
                    f"the {flavour} copy does not define {missing}, which the library imports from the module it replaces",
                    file=v, func="<module>")
+            per_q = {}
             for q, fn in rm.functions().items():
                 if "." in q or not vm.has(q):
                     continue
@@ -3584,6 +4151,8 @@ def variant_agreement(chk):
                 if ars:
                     # an export may leave out trailing parameters that have a default (one signature per way of calling the function)
                     req_v = len(pb) - len(vf.args.defaults)
+                    # AUDIT: true when the export was read (a string signature / tuple / call: anything else is None -> undecided) and its
+                    # arity lies outside [required, all] parameters of the def it decorates / names
                     bad = [x for x in ars if x is not None and not (req_v <= x <= len(pb))]
                     full = any(x == len(pb) for x in ars)
                     oka = False if bad else (None if any(x is None for x in ars) else True)
@@ -3598,12 +4167,28 @@ def variant_agreement(chk):
                 # V2b: the exported argument types are those the reference kernel declares (kind and rank)
                 ann = [_type_kind(src(a.annotation)) if a.annotation is not None else None for a in fn.args.args]
                 sigs = [sg for sg in export_types(vm, q, flavour) if len(sg) == len(ann)]
+                # AUDIT: compared only when every annotation of the reference AND every exported type is of the readable form
+                # <kind>[:,..] (TypeVars, function types, unknown spellings: no verdict) and the arities agree; kinds are compared up
+                # to width (int32/int64 -> int, float64 -> float), ranks exactly
                 if sigs and all(a is not None for a in ann) and all(x is not None for sg in sigs for x in sg):
                     okt = any(sg == ann for sg in sigs)
                     diffs = [(k, sg[k]) for sg in sigs[:1] for k in range(len(ann)) if sg[k] != ann[k]]
+                    if not okt:
+                        # AUDIT: "converts or rejects the arguments" is true when some argument is exported with another RANK or with a
+                        # NARROWER kind than the reference declares (int for float, bool for int, float for complex: values are lost);
+                        # an export that is only WIDER (int for bool, float for int) takes every value the reference takes - whether
+                        # the body then computes the same is the business of V4: not a violation of this rule
+                        width = {"bool": 0, "int": 1, "float32": 2, "float": 3, "complex": 4}
+                        def only_wider(sg):
+                            return all(x == y or (x[1] == y[1] and width.get(x[0], -1) > width.get(y[0], 99)) for x, y in zip(sg, ann))
+                        if any(only_wider(sg) for sg in sigs):
+                            okt = None
                     chk.ob("V2-export-types", vf, f"{v}:{q} exported argument types", okt,
                            "an export signature declares, argument by argument, the kind (int/float/bool/complex) and rank the reference "
                            "kernel is annotated with" if okt else
+                           (f"an export signature of the {flavour} copy differs from the annotations of the reference only by WIDER kinds (argument "
+                            f"{diffs[0][0] + 1} `{pb[diffs[0][0]] if diffs[0][0] < len(pb) else '?'}`: {diffs[0][1][0]} for {ann[diffs[0][0]][0]}): every "
+                            "value the reference takes is representable; whether the same results follow is not decided by this rule") if okt is None else
                            f"no export signature of the {flavour} copy has the argument types of the reference: argument {diffs[0][0] + 1} "
                            f"`{pb[diffs[0][0]] if diffs[0][0] < len(pb) else '?'}` is exported as {diffs[0][1][0]} of rank {diffs[0][1][1]}, the "
                            f"reference declares {ann[diffs[0][0]][0]} of rank {ann[diffs[0][0]][1]}: the compiled copy converts or rejects the "
@@ -3654,6 +4239,7 @@ def variant_agreement(chk):
                             chk._seen.add(k2)
                             chk.obs.append(o2)
                     chk.functions |= {f_.replace(v0, v) for f_ in funcs0}
+                    per_q[q] = (res, None)
                     if res is True:
                         proved += 1
                     elif res is None:
@@ -3670,10 +4256,35 @@ def variant_agreement(chk):
                     chk.ob("V4-body-equivalence", vf, f"{v}:{q}", None, f"comparison with the reference failed ({type(e).__name__}: {e})",
                            file=v, func=q)
                 analysed[vkey] = (res, v, list(chk.obs[before_v4:]), set(chk.functions) - funcs_v4)
+                per_q[q] = (res, vkey)
                 if res is True:
                     proved += 1
                 elif res is None:
                     unproved += 1
+            # AUDIT (caller + callee are one unit): a helper of the copy that the library never reaches directly - not imported from
+            # the module, no library call - is seen only through its callers inside the copy.  When it differs from the reference's
+            # helper and EVERY caller in the copy is written differently too (none of them proved equal to its counterpart), the
+            # two differences may be the two halves of one change of convention: the difference of the helper alone is then no
+            # violation of "same results as the reference" (the callers' own verdicts stand).
+            for g, (res_g, vkey_g) in list(per_q.items()):
+                if res_g is not False or vkey_g is None or g in want[ref] or any(c_[0] != ref for c_ in library_calls(chk).get(g, [])):
+                    continue          # (vkey None: the verdict was taken over from an identical sibling module, demoted there if at all)
+                callers = [f_ for f_, ff in vm.functions().items() if "." not in f_ and f_ != g
+                           and any(isinstance(n_, ast.Name) and n_.id == g for n_ in ast.walk(ff))]
+                if not callers or any(per_q.get(f_, (True, None))[0] is True for f_ in callers):
+                    continue
+                res0, v0, obs0, funcs0 = analysed[vkey_g]
+                for o in obs0:
+                    if o.status == "VIOLATED":
+                        chk._seen.discard((o.key, o.status, o.line))
+                        o.status = "UNDECIDED"
+                        o.msg = (f"`{g}` is a helper that only the kernels of this module call ({', '.join(sorted(callers)[:4])}); every one of "
+                                 "them is written differently from its counterpart too, so the following difference may be one half of a "
+                                 "change of convention between the helper and its callers - not decided: " + o.msg)
+                        chk._seen.add((o.key, o.status, o.line))
+                analysed[vkey_g] = (None, v0, obs0, funcs0)
+                per_q[g] = (None, vkey_g)
+                unproved += 1
     chk.extra["variant_bodies_proved"] = proved
     chk.extra["variant_bodies_unproved"] = unproved
     if proved < 55:
@@ -3695,10 +4306,21 @@ def variant_agreement(chk):
             continue
         fa = {f.name: f for f in ta.body if isinstance(f, ast.FunctionDef)}
         fb = {f.name: f for f in tb.body if isinstance(f, ast.FunctionDef)}
+        _CTX["defined"], _CTX["changed"] = set(fa) & set(fb), set()
         only = sorted(set(fa) ^ set(fb))
-        if only:
-            chk.ob(R3, mb.tree, con, False, f"the two copies of the same pythran module do not define the same functions: {only} exist in one "
+        # AUDIT: a function that exists in one copy only is a difference between the two builds only when it is part of what the
+        # module offers (exported to pythran, or imported by the library from the module it replaces); a private helper of one copy
+        # is a matter of how that copy is written
+        public = sorted(n_ for n_ in only if re.search(r"#\s*pythran\s+export\s+" + re.escape(n_) + r"\s*\(", ma.src + "\n" + mb.src)
+                        or any(n_ in w for w in want.values()))
+        if public:
+            chk.ob(R3, mb.tree, con, False, f"the two copies of the same pythran module do not define the same functions: {public} exist in one "
                    "of them only - which of the two is compiled depends on the kernel being built", file=b, func="<module>")
+            continue
+        if only:
+            chk.ob(R3, mb.tree, con, None, f"the two copies of the same pythran module differ: the helper(s) {only} exist in one of them only "
+                   "(not exported, not imported by the library); whether the functions that use them still agree is not decided",
+                   file=b, func="<module>")
             continue
         verdict, detail = True, ""
         for name in fa:
@@ -3718,6 +4340,8 @@ def variant_agreement(chk):
                 if verdict is True:
                     verdict, detail = None, f"`{name}` is structured differently in the two copies ({e})"
                 continue
+            # AUDIT: the two files are meant to be the SAME module: a recognisably different expression (expr_same False) in functions
+            # with the same skeleton is a difference between the two builds
             bad = [(x, y, what) for x, y, _, sy, what in pairs if expr_same(x, y) is False and not _equality_knowledge(sy, x, y)]
             if bad or not args_same:
                 x, y, what = bad[0] if bad else (ca.args, cb.args, "parameter list")
@@ -3996,6 +4620,15 @@ def feq_equal(chk, v, vm):
     try:
         a, b = formula(rm), formula(vm)
         ok = sp.simplify(a - b) == 0
+        if not ok:
+            # AUDIT: a difference that `simplify` does not reduce to zero is not yet a difference of the functions: the two formulas
+            # are also evaluated at random positive values of the parameters (the parameters of f_eq are positive quantities);
+            # they differ only if they differ there
+            ne = _numerically_equal(a, b)
+            if ne is True:
+                ok = True
+            elif ne is None:
+                return None, f"the formulas of f_eq ({b} / {a}) agree at positive parameters and differ for other signs: not decided"
     except (Undecided, Exception) as e:
         return None, f"the formula of f_eq is not extractable ({e})"
     chk.ob("V4-body-equivalence", vm.func("f_eq"), f"{v}:f_eq", ok, "same formula as the reference (n0, Ti uninterpreted)" if ok else
@@ -4036,6 +4669,10 @@ def call_sites(chk):
                     n += 1
                     con = f"{name}(...) in {rel.split('/')[-1]}:{qual(c)}"
                     sig = f"`{name}({', '.join(formals)})`"
+                    # AUDIT (I1): true when the call is a call of THIS kernel (plain name imported from a kernel module and not re-bound in
+                    # an enclosing function, attribute of a kernel module alias, or an entry of a dispatch table), its starred
+                    # arguments were written out from literals (otherwise `problem` -> undecided) and the kernel has no variadic
+                    # parameters: then Python's own binding rules give the TypeError quoted
                     bad = None
                     if fn.args.vararg or fn.args.kwarg or fn.args.kwonlyargs:
                         chk.ob("I1-call-fits-signature", c, con, None, f"{sig} has variadic / keyword-only parameters: binding not "
@@ -4086,8 +4723,13 @@ def _shadowed(call, name):
                     for n in ast.walk(p):
                         if isinstance(n, ast.FunctionDef) and n is not p:
                             rebound.add(n.name)
-                        elif isinstance(n, ast.Assign):
-                            rebound |= {t.id for t in n.targets if isinstance(t, ast.Name)}
+                        elif isinstance(n, ast.Name) and isinstance(n.ctx, ast.Store):
+                            rebound.add(n.id)          # assignment, loop / with / comprehension target, walrus
+                        elif isinstance(n, (ast.Import, ast.ImportFrom)):
+                            # a local import: the kernel itself only when it comes from a kernel module
+                            kmods = {k.split("/")[-1][:-3] for k in U.KERNELS}
+                            if not (isinstance(n, ast.ImportFrom) and (n.module or "").split(".")[-1] in kmods):
+                                rebound |= {(a.asname or a.name).split(".")[0] for a in n.names}
                     p._c19_rebound = rebound
                 if name in rebound:
                     return True
@@ -4096,13 +4738,17 @@ def _shadowed(call, name):
 
 
 def _imported(mod, name, call):
+    """is the plain name `name` at this call the kernel of that name?  AUDIT: only when the module imports it from a kernel module
+    (`from .spline_eval_funcs import name`) or IS the kernel module that defines it; a function of the same name defined in a
+    library module, or imported from somewhere else, is another function with its own signature"""
     if isinstance(call.func, ast.Attribute):
         return True       # init.<name>
+    kmods = {k.split("/")[-1][:-3] for k in U.KERNELS}
     for st in mod.tree.body:
         if isinstance(st, ast.ImportFrom) and any((a.asname or a.name) == name for a in st.names):
-            return True
+            return (st.module or "").split(".")[-1] in kmods
         if isinstance(st, ast.FunctionDef) and st.name == name:
-            return True
+            return getattr(mod, "rel", None) in U.KERNELS
     return False
 
 
@@ -4431,7 +5077,10 @@ def _callers_pass_nonnegative_1(chk, q, param, depth, seen):
             continue
         diff = _unreduced_table_difference(actual, c)
         if diff is not None:
-            return False, f"the call at {rel.split('/')[-1]}:{c.lineno} passes {diff}"
+            # AUDIT: a difference of table data handed over without a reduction CAN be negative, but whether the subtracted data ever
+            # exceed the minuend is a property of the data the library stores (an offset into a window, a global-to-local index ...),
+            # which is not established here: not a violation, the sign of what the callers pass is simply not known
+            return None, f"the call at {rel.split('/')[-1]}:{c.lineno} passes {diff} (whether the subtracted data can exceed the minuend is not known)"
         if _nonnegative_by_construction(actual, c) is not True:
             return None, (f"the call at {rel.split('/')[-1]}:{c.lineno} passes `{_short(actual, 60)}`, which is not recognisably non-negative "
                           "(no reduction `% n`, abs, ... on the way)")
@@ -4447,7 +5096,7 @@ def periodic_indices(chk, rel, q, fn, ref_fn):
     data = _data_ints(fn, int_arrays)
     sources = _data_sources(fn, int_arrays)
     int_scalars = {a.arg for f_ in (fn, ref_fn) if f_ is not None for a in f_.args.args
-                   if a.annotation is not None and re.fullmatch(r"['\"]?\s*int\d*\s*['\"]?", src(a.annotation))} & {a.arg for a in fn.args.args}
+                   if a.annotation is not None and _type_kind(src(a.annotation)) == ("int", 0)} & {a.arg for a in fn.args.args}
 
     def table_lookup(val):
         """the index is read from integer array arguments and only constants / counters are ADDED to it (no variable is subtracted,
@@ -4595,6 +5244,70 @@ def periodic_indices(chk, rel, q, fn, ref_fn):
 
     own_params = {a.arg for a in fn.args.args}
 
+    # AUDIT (every VIOLATED verdict of K1 goes through `claim`).  "This index can be negative when it reaches the subscript" is
+    # true of the code only if (1) the index expression consists of what the analysis models - sums and differences of names,
+    # literals, array elements and `%` terms: a call (max, abs, int, a helper), a conditional expression or a comparison in it may
+    # be the very thing that keeps it in range; (2) some use of the index is reached unconditionally as far as the index is
+    # concerned: a use that stands under an `if` / `while` / conditional expression whose test mentions the index or one of the
+    # names it is computed from, or that follows an early exit (`if <such a test>: continue / break / return / raise`), may be
+    # reached by non-negative values only.  When one of the two cannot be established the verdict is UNDECIDED.
+    array_names = {n.value.id for n in ast.walk(fn) if isinstance(n, ast.Subscript) and isinstance(n.value, ast.Name)}
+
+    def stmt_of(node):
+        while node is not None and not isinstance(node, ast.stmt):
+            node = parent(node)
+        return node
+
+    def names_in(e):
+        return {n.id for n in ast.walk(e) if isinstance(n, ast.Name)} if e is not None else set()
+
+    def conditioned(node, names):
+        from ..core import guards_of
+        if any(kind_ != "for" and names & names_in(t) for t, _, kind_ in guards_of(node)):
+            return "it stands under a condition on " + ", ".join(sorted(names & set().union(*[names_in(t) for t, _, k_ in guards_of(node) if k_ != "for"])))
+        st0 = stmt_of(node)
+        if st0 is None or id(st0) not in pos:
+            return None
+        for st in stmts:
+            if isinstance(st, ast.If) and pos[id(st)] < pos[id(st0)] and names & names_in(st.test) and not any(x is st0 for x in ast.walk(st)) \
+                    and any(isinstance(x, (ast.Continue, ast.Break, ast.Return, ast.Raise)) for x in ast.walk(st)):
+                return f"it follows the early exit `if {src(st.test)[:50]}: ...`"
+        return None
+
+    def claim(node, construct, msg, names, uses, val=None):
+        """record VIOLATED (-> 1) when the assumptions of the diagnosis hold, UNDECIDED (-> 0) otherwise"""
+        unmodelled = None
+        for e in ([val] if val is not None else []):
+            for n in ast.walk(e):
+                if isinstance(n, ast.Call) and not (isinstance(n.func, ast.Name) and n.func.id == "len"):
+                    unmodelled = f"the call `{src(n)[:40]}`"
+                elif isinstance(n, (ast.IfExp, ast.Compare, ast.BoolOp, ast.Lambda, ast.NamedExpr, ast.Starred)):
+                    unmodelled = f"`{src(n)[:40]}`"
+                elif isinstance(n, ast.BinOp) and not isinstance(n.op, (ast.Add, ast.Sub, ast.Mult, ast.Mod, ast.FloorDiv)):
+                    unmodelled = f"`{src(n)[:40]}`"
+        names = (set(names) | names_in(val)) - array_names
+        why_not = None
+        if unmodelled:
+            why_not = f"the index goes through {unmodelled}, which the index analysis does not model (it may be what keeps the index in range)"
+        elif uses:
+            conds = [conditioned(u, names) for u in uses]
+            if all(c is not None for c in conds):
+                why_not = f"every use of the index is conditional ({conds[0]}): whether a negative value reaches a subscript is not decided"
+        if why_not is None:
+            chk.ob(R, node, construct, False, msg, file=rel, func=q)
+            return 1
+        chk.ob(R, node, construct, None, msg.split(": interpreted Python")[0][:400] + " - but " + why_not, file=rel, func=q)
+        return 0
+
+    uses_of = {}
+    for sub_ in ast.walk(fn):
+        if isinstance(sub_, ast.Subscript) and not (isinstance(sub_.value, ast.Attribute) and sub_.value.attr == "shape"):
+            for it_ in (sub_.slice.elts if isinstance(sub_.slice, ast.Tuple) else [sub_.slice]):
+                if isinstance(it_, ast.Name):
+                    uses_of.setdefault(it_.id, []).append(sub_)
+                elif not isinstance(it_, (ast.Slice, ast.Constant)):
+                    uses_of.setdefault(src(it_), []).append(sub_)
+
     def local_table(val):
         """the index is an element of a LOCAL array filled in this kernel: what was stored decides its sign -> (store statement, text)
         for a stored value that can be negative (unreduced difference of array data, subtracted remainder, counted from the end)"""
@@ -4637,12 +5350,12 @@ def periodic_indices(chk, rel, q, fn, ref_fn):
                     # an integer argument used as an index as it is: the index is computed by the callers
                     ok_p, why_p = _callers_pass_nonnegative(chk, q, x)
                     if ok_p is False:
-                        nviol += 1
-                        chk.ob(R, sub, f"{src(sub)[:60]} with the argument {x} as index", False,
+                        nviol += claim(sub, f"{src(sub)[:60]} with the argument {x} as index",
                                f"the integer argument `{x}` is used as an index as it is and {why_p}: the value is negative whenever the "
                                "subtracted data exceed the minuend - interpreted Python then indexes from the end (silently, the periodic "
                                "neighbour), the compiled (pyccel/pythran) kernel does not wrap a negative index and reads/writes before the "
-                               "start of the array", file=rel, func=q)
+                               "start of the array",
+                                       names={x}, uses=uses_of.get(x, []), val=None)
                     continue
                 if len(defs) != len(stores.get(x, [])):
                     continue          # loop counters and unpacked values: not an index computed here
@@ -4654,10 +5367,10 @@ def periodic_indices(chk, rel, q, fn, ref_fn):
                     val = resolve(d.value)
                     lt = local_table(val) if not mine else None
                     if lt is not None:
-                        nviol += 1
-                        chk.ob(R, lt[0], f"index {x} = {src(d.value)}: {src(lt[0])[:60]}", False,
+                        nviol += claim(lt[0], f"index {x} = {src(d.value)}: {src(lt[0])[:60]}",
                                f"`{x} = {src(d.value)}` is used as an index as it is and {lt[1]}: a negative entry is wrapped around by "
-                               "interpreted Python, the compiled kernel reads/writes out of bounds", file=rel, func=q)
+                               "interpreted Python, the compiled kernel reads/writes out of bounds",
+                                       names={x}, uses=uses_of.get(x, []), val=None)
                         continue
                     fi = first_iteration_negative(val)
                     if fi is not None and not mine and (guarded_on(d, fi[0]) or guarded_on(sub, fi[0])):
@@ -4666,11 +5379,11 @@ def periodic_indices(chk, rel, q, fn, ref_fn):
                                "subscript is not decided", file=rel, func=q)
                         continue
                     if fi is not None and not mine:
-                        nviol += 1
-                        chk.ob(R, d, f"index {x} = {src(d.value)}", False,
+                        nviol += claim(d, f"index {x} = {src(d.value)}",
                                f"the loop counter `{fi[0]}` starts at {fi[1]}, so `{x} = {src(d.value)}` is {fi[2]} in the first iteration and "
                                f"nothing brings it back into range: interpreted Python indexes `{src(sub)[:40]}` from the end, the compiled "
-                               "(pyccel/pythran) kernel does not wrap a negative index and accesses memory before the array", file=rel, func=q)
+                               "(pyccel/pythran) kernel does not wrap a negative index and accesses memory before the array",
+                                       names={x, fi[0]}, uses=uses_of.get(x, []), val=val)
                         continue
                     why = may_be_negative(val)
                     kinds = {k_ for k_, _ in mine}
@@ -4703,39 +5416,39 @@ def periodic_indices(chk, rel, q, fn, ref_fn):
                                "range bounds the shift: whether the single range correction that follows is enough is not decided",
                                file=rel, func=q)
                     elif wrapped_mod:
-                        nviol += 1
-                        chk.ob(R, sub, f"{src(sub)[:60]} with index {src(d.value)}", False,
+                        nviol += claim(sub, f"{src(sub)[:60]} with index {src(d.value)}",
                                f"the index `{src(d.value)}` can be negative ({why}): interpreted Python wraps it around, the compiled "
-                               "(pyccel/pythran) kernel reads/writes out of bounds", file=rel, func=q)
+                               "(pyccel/pythran) kernel reads/writes out of bounds",
+                                       names={x}, uses=uses_of.get(x, []), val=val)
                     elif "low-if" in kinds:
                         variable = [t for sg, t in _additive_terms(val) if sg < 0 and not isinstance(t, ast.Constant)] or \
                             [t for sg, t in _additive_terms(val) if _names_outside_mod(t) & data]
                         if not variable:
                             continue      # a constant offset: one period is enough
                         b0 = [t for k_, t in mine if k_ == "low-if"][0]
-                        nviol += 1
-                        chk.ob(R, d, f"index {x} = {src(d.value)}; {b0}", False,
+                        nviol += claim(d, f"index {x} = {src(d.value)}; {b0}",
                                f"`{x} = {src(d.value)}` is brought back into range by adding the period once: when the shift exceeds one period "
                                f"`{x}` stays negative - interpreted Python then indexes from the end (silently, and here even correctly), the "
-                               "compiled kernel reads/writes before the start of the array", file=rel, func=q)
+                               "compiled kernel reads/writes before the start of the array",
+                                       names={x}, uses=uses_of.get(x, []), val=val)
                     elif "up" in kinds:
                         up = [t for k_, t in mine if k_ == "up"][0]
-                        nviol += 1
-                        chk.ob(R, d, f"index {x} = {src(d.value)}; {up}", False,
+                        nviol += claim(d, f"index {x} = {src(d.value)}; {up}",
                                f"`{x} = {src(d.value)}` is corrected only at the upper end (`{up}`); it can be negative ({why}) and "
                                f"nothing adds the period back: interpreted Python silently indexes `{src(sub)[:40]}` from the end (the "
                                "plane the modulo would have given), the compiled (pyccel/pythran) kernel does not wrap a negative index and "
-                               "reads/writes before the start of the array, leaving the intended element untouched", file=rel, func=q)
+                               "reads/writes before the start of the array, leaving the intended element untouched",
+                                       names={x}, uses=uses_of.get(x, []), val=val)
                     elif (_names_outside_mod(val) & data) and table_lookup(val) != "no":
                         ok_t, why_t = table_lookup(val)
                         nviol += ok_t is False
                         chk.ob(R, d, f"index {x} = {src(d.value)} (read from an integer array argument)", ok_t,
                                table_text(f"`{x} = {src(d.value)}`", ok_t, why_t), file=rel, func=q)
                     elif (_names_outside_mod(val) & data) or _from_end(val):
-                        nviol += 1
-                        chk.ob(R, d, f"index {x} = {src(d.value)} (never reduced)", False,
+                        nviol += claim(d, f"index {x} = {src(d.value)} (never reduced)",
                                f"`{x} = {src(d.value)}` is used as an index as it is; {why}, so it can be negative: interpreted Python "
-                               "wraps it around, the compiled kernel reads/writes out of bounds", file=rel, func=q)
+                               "wraps it around, the compiled kernel reads/writes out of bounds",
+                                       names={x}, uses=uses_of.get(x, []), val=val)
                     # otherwise: a structural offset such as span - degree + j, kept non-negative by the callers' contract
             else:
                 key = src(it)
@@ -4745,10 +5458,10 @@ def periodic_indices(chk, rel, q, fn, ref_fn):
                 val = resolve(it)
                 lt = local_table(val)
                 if lt is not None:
-                    nviol += 1
-                    chk.ob(R, lt[0], f"{src(sub)[:60]} with index {src(it)}: {src(lt[0])[:60]}", False,
+                    nviol += claim(lt[0], f"{src(sub)[:60]} with index {src(it)}: {src(lt[0])[:60]}",
                            f"the index `{src(it)}` is used as it is and {lt[1]}: a negative entry is wrapped around by interpreted "
-                           "Python, the compiled kernel reads/writes out of bounds", file=rel, func=q)
+                           "Python, the compiled kernel reads/writes out of bounds",
+                                   names=names_in(it), uses=uses_of.get(src(it), [sub]), val=None)
                     continue
                 fi = first_iteration_negative(val)
                 if fi is not None and guarded_on(sub, fi[0]):
@@ -4757,11 +5470,11 @@ def periodic_indices(chk, rel, q, fn, ref_fn):
                            "subscript is not decided", file=rel, func=q)
                     continue
                 if fi is not None:
-                    nviol += 1
-                    chk.ob(R, sub, f"{src(sub)[:60]} with index {src(it)}", False,
+                    nviol += claim(sub, f"{src(sub)[:60]} with index {src(it)}",
                            f"the loop counter `{fi[0]}` starts at {fi[1]}, so `{src(it)}` is {fi[2]} in the first iteration: interpreted Python "
                            f"reads/writes `{src(sub.value)}` from the end (the periodic neighbour), the compiled (pyccel/pythran) kernel does "
-                           "not wrap a negative index and accesses memory before the array", file=rel, func=q)
+                           "not wrap a negative index and accesses memory before the array",
+                                   names=names_in(it), uses=uses_of.get(src(it), [sub]), val=val)
                     continue
                 why = may_be_negative(val)
                 if why is None:
@@ -4774,10 +5487,10 @@ def periodic_indices(chk, rel, q, fn, ref_fn):
                     chk.ob(R, sub, f"{src(sub)[:60]} with index {src(it)} (read from an integer array argument)", ok_t,
                            table_text(f"`{src(it)}`", ok_t, why_t), file=rel, func=q)
                 elif open_mods(val) or (_names_outside_mod(val) & data) or _from_end(val):
-                    nviol += 1
-                    chk.ob(R, sub, f"{src(sub)[:60]} with index {src(it)}", False,
+                    nviol += claim(sub, f"{src(sub)[:60]} with index {src(it)}",
                            f"the index `{src(it)}` can be negative ({why}): interpreted Python wraps it around, the compiled "
-                           "(pyccel/pythran) kernel reads/writes out of bounds", file=rel, func=q)
+                           "(pyccel/pythran) kernel reads/writes out of bounds",
+                                   names=names_in(it), uses=uses_of.get(src(it), [sub]), val=val)
     return nviol
 
 
@@ -4832,6 +5545,10 @@ def index_wrap(chk):
                                        "the first value it did not take): whether the loop always ends through `break` is not decided",
                                        file=rel, func=q)
                                 break
+                            # AUDIT (K2): true when the loop is a range / enumerate loop without `break`, the name is not bound again
+                            # between the end of the loop and this read (positions in the text; a read on a path that does not pass
+                            # through the loop would be a use before assignment in Python anyway), and the loop runs to its end: Python
+                            # keeps the last value taken, the generated do-loop the first value not taken
                             n2[0] += 1
                             chk.ob("K2-loop-variable-after-loop", st_, f"`{nm}` read in `{src(st_)[:60]}` after `for {src(lp.target)} in {src(lp.iter)[:40]}`", False,
                                    f"after the loop Python leaves `{nm}` at the last value it took, the compiled Fortran/C loop at the first "
@@ -4853,6 +5570,9 @@ def index_wrap(chk):
                 for t in tgs:
                     for nm in ([t] if isinstance(t, ast.Name) else [e for e in t.elts if isinstance(e, ast.Name)] if isinstance(t, (ast.Tuple, ast.List)) else []):
                         if nm.id in arrays:
+                            # AUDIT (K3): true when the name is a parameter annotated as an array of rank > 0 in readable form and the
+                            # statement binds the bare name (not X[:] = ..., not X += ...): a rule about pyccel's code generation
+                            # (assignment to a dummy array argument is in place), stated in `trusted`
                             n3 += 1
                             final = any(a.arg == nm.id and a.annotation is not None and "Final" in src(a.annotation) for a in fn.args.args)
                             chk.ob("K3-array-argument-rebound", st, f"{rel}:{q}: `{src(st)[:70]}`", False,
@@ -4914,6 +5634,8 @@ def build_witness(chk, tier, handle=None):
             # a diagnosis of the compiler about the source (|error [stage]: file [line,col]| ...) is a verdict; anything else that
             # makes the process fail (crash of the tool, environment) decides nothing about the kernel
             diagnosed = any(re.search(r"\|\s*(error|fatal)\b|ERROR at .* stage", l) for l in out.splitlines())
+            # AUDIT (B1, the one dynamic witness of this check): the compiler's own diagnosis of the source; a failure without such
+            # a diagnosis (tool crash, environment) is undecided
             okb = True if rc == 0 else (False if diagnosed else None)
             chk.ob("B1-build-front-end", None, f"pyccel -t {rel}", okb, "translated (syntax, semantic/type analysis and code generation) "
                    "without error" if rc == 0 else ("pyccel rejects the kernel: " if diagnosed else "pyccel failed without a diagnosis of "
@@ -4971,6 +5693,49 @@ def _pattern_rule_builds(txt, nm):
     return False
 
 
+def _make_for_pycc(txt):
+    """the lines of a Makefile that are active in the documented build `make ACC=pycc`: branches of `ifeq ($(ACC), x)` / `ifneq
+    ($(ACC), x)` (nested, with `else` / `else ifeq ...`) that are not taken for ACC = pycc are left out; a conditional on anything
+    else keeps all its branches"""
+    out, stack = [], []          # stack of (decided?, active now?, some branch already taken?)
+
+    def truth(line):
+        m = re.match(r"\s*(ifeq|ifneq)\s*\(\s*\$\(ACC\)\s*,\s*([A-Za-z0-9_]*)\s*\)\s*$", line) or \
+            re.match(r"\s*(ifeq|ifneq)\s*\(\s*([A-Za-z0-9_]*)\s*,\s*\$\(ACC\)\s*\)\s*$", line)
+        if not m:
+            return None
+        return (m.group(2) == "pycc") == (m.group(1) == "ifeq")
+    for line in txt.splitlines():
+        st = line.strip()
+        if re.match(r"(ifeq|ifneq|ifdef|ifndef)\b", st) and not line.startswith("\t"):
+            t = truth(line)
+            stack.append([t is not None, t is not False, t is True])
+            continue
+        if re.match(r"else\b", st) and not line.startswith("\t") and stack:
+            rest = st[4:].strip()
+            top = stack[-1]
+            if not top[0]:
+                continue          # undecided conditional: every branch is kept
+            if rest:
+                t = truth(rest)
+                if t is None:
+                    top[0] = False
+                    top[1] = True
+                else:
+                    top[1] = (not top[2]) and t
+                    top[2] = top[2] or top[1]
+            else:
+                top[1] = not top[2]
+                top[2] = True
+            continue
+        if re.match(r"endif\b", st) and not line.startswith("\t") and stack:
+            stack.pop()
+            continue
+        if all(a for _, a, _ in stack):
+            out.append(line)
+    return "\n".join(out) + "\n"
+
+
 def makefile_targets(chk):
     """the documented build compiles exactly the five kernel modules"""
     found = set()
@@ -4978,7 +5743,7 @@ def makefile_targets(chk):
     for d, names in (("pygyro/splines", ("spline_eval_funcs", "cubic_uniform_spline_eval_funcs")),
                      ("pygyro/initialisation", ("initialiser_funcs",)), ("pygyro/advection", ("accelerated_advection_steps",)),
                      ("pygyro/poisson", ("poisson_tools",))):
-        txt = chk.repo.text(d + "/Makefile")
+        txt = _make_for_pycc(chk.repo.text(d + "/Makefile"))
         for nm in names:
             all_targets.append((d, nm))
             if re.search(r"^" + nm + r"\$\(SO_EXT\):\s*(?:pythran_deps/)?\$\(NAME_PREFIX\)" + nm + r"\.py", txt, re.M) \
@@ -4994,11 +5759,13 @@ def makefile_targets(chk):
     for d, nm in all_targets:
         if nm in found:
             continue
-        txt = chk.repo.text(d + "/Makefile")
-        for m in re.finditer(r"^" + nm + r"\$\(SO_EXT\)\s*:\s*(\S+)", txt, re.M):
-            first = m.group(1)
-            if first.endswith(".py") and not first.endswith(nm + ".py"):
-                wrong.append(f"{d}/Makefile builds {nm}$(SO_EXT) from `{first}`")
+        txt = _make_for_pycc(chk.repo.text(d + "/Makefile"))
+        for m in re.finditer(r"^" + nm + r"\$\(SO_EXT\)\s*:\s*(\S+).*\n((?:\t.*\n?)*)", txt, re.M):
+            first, recipe = m.group(1), m.group(2)
+            # AUDIT: the first prerequisite is the compiled source only when the recipe compiles `$<`; a recipe that names its source
+            # (or uses another automatic variable) is not read here
+            if first.endswith(".py") and not first.endswith(nm + ".py") and "$<" in recipe and (nm + ".py") not in recipe:
+                wrong.append(f"{d}/Makefile builds {nm}$(SO_EXT) from `{first}` (the recipe compiles `$<`)")
     chk.ob("B1-makefile-targets", None, "kernel targets of pygyro/*/Makefile", False if wrong else None,
            ("the documented build compiles another source than the kernel the library imports: " + "; ".join(wrong)) if wrong else
            f"the rules of {sorted(nm for _, nm in all_targets if nm not in found)} are not written in the recognised form "
